@@ -11,6 +11,7 @@ import QV.Drive.C17
 import QV.Drive.C13
 import QV.Drive.C15
 import QV.Drive.C10
+import QV.Drive.C07
 /-! `qvdriver`: one JSON request per input line, one JSON reply per output line. -/
 open Lean
 
@@ -28,7 +29,8 @@ def dispatch (j : Json) : Except String Json := do
     QV.Drive.C17.handle,
     QV.Drive.C13.handle,
     QV.Drive.C15.handle,
-    QV.Drive.C10.handle
+    QV.Drive.C10.handle,
+    QV.Drive.C07.handle
   ]
   for h in handlers do
     if let some r := h op j then return ← r
